@@ -137,4 +137,17 @@ CHECKS = {
              "changed byte is applied; non-trivial = mutation that changes a TGDATA record or a length/ordering",
         assumptions=["one transaction group per write request (sync mode) so that WAL byte ranges map to requests"],
     ),
+    "C35": dict(
+        test="TestC35", level="exploration", shards=16, cmds=["mkwork", "mkrestart"], engine="crash-engine",
+        tiers=dict(quick=dict(checks=2, timeout=900), thorough=dict(checks=60, timeout=3400, env=dict(VERIF_MAXOPS=12))),
+        technique="property-based testing over generated histories x every shutdown position, fresh-process restart, differential + model oracle",
+        env=dict(VERIF_SHRINK="5s"),
+        rule="rapid histories (fixed/variable buckets, repeated intervals, multi-bucket requests) run by a real server with "
+             "the background WAL writer (production timers 500ms/5min or short ones 1-5ms/3-20ms, rotation 1-5, optional "
+             "sleeps so that timer flushes/checkpoints/rotations interleave) x graceful Shutdown() after op k for EVERY k; "
+             "oracle: dump taken in-process just before the shutdown == dump of a fresh-process restart == model (every "
+             "acknowledged write, no variable-length record twice), second restart identical; non-trivial = shutdown "
+             "position with >=2 writes and variable-length data, distinct by history prefix",
+        assumptions=["schedule of the background writer is sampled, not controlled"],
+    ),
 }
